@@ -1170,13 +1170,18 @@ def unitscale(repo, out):
         if isinstance(x, ast.Assign) and isinstance(x.targets[0], ast.Subscript) and isinstance(x.value, ast.Name):
             stores[astx.path(x.targets[0].value)] = x.value.id
     add_l, scl_l = stores.get('adder_array'), stores.get('scaler_array')
+    # the (a0, a1, factor, offset) tuple of a variable is unpacked into locals: roles by position
+    unp4 = [x for x in astx.walk_stmts(fn.node.body) if isinstance(x, ast.Assign) and
+            isinstance(x.targets[0], ast.Tuple) and len(x.targets[0].elts) == 4 and
+            all(isinstance(e, ast.Name) for e in x.targets[0].elts) and isinstance(x.value, ast.Subscript)]
+    rn = [e.id for e in unp4[0].targets[0].elts] if len(unp4) == 1 else ['a0', 'a1', 'factor', 'offset']
     # the nonlinear unit-converted arm: the block that assigns the adder local from the conversion offset
     blocks = []
     for x in astx.walk(fn.node):
         for fld in ('body', 'orelse'):
             blk = getattr(x, fld, None)
             if isinstance(blk, list) and any(isinstance(y, ast.Assign) and len(y.targets) == 1 and
-                                             astx.path(y.targets[0]) == add_l and astx.mentions(y.value, 'offset')
+                                             astx.path(y.targets[0]) == add_l and astx.mentions(y.value, rn[3])
                                              for y in blk):
                 blocks.append(blk)
     if add_l is None or scl_l is None or len(blocks) != 1:
@@ -1189,7 +1194,7 @@ def unitscale(repo, out):
         else:
             bad = None
             for a0, a1, factor, offset, n in samples:
-                env = dict(a0=a0, a1=a1, factor=factor, offset=offset)
+                env = {rn[0]: a0, rn[1]: a1, rn[2]: factor, rn[3]: offset}
                 try:
                     got = _Arith(env).ev(asg[add_l].value) + _Arith(env).ev(asg[scl_l].value) * n
                 except AnalysisError as e:
@@ -1209,15 +1214,26 @@ def unitscale(repo, out):
                         key='unitscale-compose')
     # mirror used to decide whether an input adder must be allocated
     gf = repo.func('openmdao/core/group.py', 'Group._compute_root_scale_factors')
-    mir = [x for x in astx.walk_stmts(gf.node.body) if isinstance(x, ast.Assign) and astx.path(x.targets[0]) == 'a0'
-           and astx.mentions(x.value, 'offset')]
+    # the value tested for the input-adder allocation: `_has_input_adder |= np.any(np.asarray(X))`
+    tnames = {'a0'}
+    for x in astx.walk_stmts(gf.node.body):
+        if isinstance(x, ast.AugAssign) and (astx.path(x.target) or '').endswith('_has_input_adder'):
+            tnames |= {n_.id for n_ in astx.walk(x.value) if isinstance(n_, ast.Name)}
+    # the conversion locals: `factor, offset = unit_conversion(...)`
+    uc = [x for x in astx.walk_stmts(gf.node.body) if isinstance(x, ast.Assign) and isinstance(x.targets[0], ast.Tuple)
+          and len(x.targets[0].elts) == 2 and isinstance(x.value, ast.Call) and
+          astx.call_name(x.value).endswith('unit_conversion')]
+    fo = [e.id for e in uc[0].targets[0].elts] if uc and all(isinstance(e, ast.Name) for e in uc[0].targets[0].elts) \
+        else ['factor', 'offset']
+    mir = [x for x in astx.walk_stmts(gf.node.body) if isinstance(x, ast.Assign) and len(x.targets) == 1 and
+           astx.path(x.targets[0]) in tnames and astx.mentions(x.value, fo[1])]
     if len(mir) != 1:
         out.unsure(gf, gf.node, 'adder-allocation mirror `a0 = g(ref0)` not found')
     else:
         bad = None
         for a0, a1, factor, offset, n in samples:
             try:
-                got = _Arith(dict(ref0=a0, a0=a0, factor=factor, offset=offset)).ev(mir[0].value)
+                got = _Arith({'ref0': a0, 'a0': a0, fo[0]: factor, fo[1]: offset}).ev(mir[0].value)
             except AnalysisError as e:
                 out.unsure(gf, mir[0], str(e))
                 bad = 'unsure'
